@@ -72,8 +72,9 @@ def run_sequence(spec, steps):
       how = "separate": the argument is a separately loaded, equal molecule (own topology, bonds listed in reverse order);
       how = "object" : the argument is the very Molecule object the map was built from, as it currently is;
       how = "inplace": that object is first moved in place (ref_object.atoms_positions = step["pos"]), then passed.
-    Returns dict(err=..., bondsets) or dict(eq, bondsets, db, map, calls=[dict(how, pos (conformation actually
-    passed), out, da)])."""
+    Returns dict(err=..., bondsets) or dict(eq, bondsets, db, map, held, held_problems, calls=[dict(how, pos
+    (conformation actually passed), out (positions read right after the call), out_end (positions of the same returned
+    Molecule re-read at the END of the sequence), da)])."""
     from gaddlemaps import ExchangeMap
     ref = get_mol("R", spec["n_ref"], spec["bonds"])
     tgt = get_mol("T", len(spec["tgt"]), chain_bonds(len(spec["tgt"])))
@@ -86,7 +87,7 @@ def run_sequence(spec, steps):
         except Exception as ex:          # error CLASS only (IndexError <-> Err EIndex in the model)
             return {"err": err_class(ex), "bondsets": bondsets}
         db = list(rec.calls)
-        calls = []
+        calls, held, problems = [], [], []
         for st in steps:
             if st["how"] == "copy":
                 arg = ref.copy()
@@ -109,8 +110,32 @@ def run_sequence(spec, steps):
                 return {"err": err_class(ex), "bondsets": bondsets}
             calls.append({"how": st["how"], "pos": passed, "out": np.array(out.atoms_positions, dtype=float),
                           "da": rec.calls[n0:]})
+            # every returned Molecule is HELD for the whole sequence: a later call must not touch it
+            held.append(out)
+            problems += held_problems(held, calls, len(calls) - 1)
+    for i, mol in enumerate(held):
+        calls[i]["out_end"] = np.array(mol.atoms_positions, dtype=float)
     return {"eq": m.equivalences, "bondsets": bondsets, "db": db, "calls": calls, "map": m,
-            "tgt_after": np.array(tgt.atoms_positions, dtype=float)}
+            "tgt_after": np.array(tgt.atoms_positions, dtype=float), "held": held, "held_problems": problems}
+
+
+def held_problems(held, calls, last):
+    """after call `last`: the results of the earlier calls, still held by the caller, must be distinct objects, share
+    no position array with the new result, and still carry bit for bit the positions read right after their own call"""
+    bad = []
+    new = held[last]
+    new_arrays = [a.position for a in new]
+    for i in range(last):
+        if held[i] is new:
+            bad.append("call %d returned the very Molecule object already returned by call %d" % (last, i))
+        elif any(np.shares_memory(x, y) for x, y in zip([a.position for a in held[i]], new_arrays)):
+            bad.append("the results of calls %d and %d share position arrays" % (i, last))
+        now = np.array(held[i].atoms_positions, dtype=float)
+        if now.shape != calls[i]["out"].shape or not np.array_equal(now, calls[i]["out"]):
+            dev = np.abs(now - calls[i]["out"]).max() if now.shape == calls[i]["out"].shape else float("inf")
+            bad.append("the molecule returned by call %d (held by the caller) was moved by call %d: max |dx| = %.3g nm" % (
+                i, last, dev))
+    return bad
 
 
 def call_view(res, i):
@@ -118,8 +143,16 @@ def call_view(res, i):
     if "err" in res:
         return res
     c = res["calls"][i]
-    return {"out": c["out"], "eq": res["eq"], "bondsets": res["bondsets"], "db": res["db"], "da": c["da"],
-            "map": res["map"], "pos": c["pos"], "how": c["how"]}
+    return {"out": c["out"], "out_end": c["out_end"], "eq": res["eq"], "bondsets": res["bondsets"], "db": res["db"],
+            "da": c["da"], "map": res["map"], "pos": c["pos"], "how": c["how"]}
+
+
+def end_view(res, i):
+    """as call_view, but the result is what the HELD returned molecule contains at the end of the sequence"""
+    v = call_view(res, i)
+    if "err" not in v:
+        v = dict(v, out=v["out_end"])
+    return v
 
 
 def run_impl(spec, refp, rand_seed=None):
